@@ -402,6 +402,15 @@ class ZIPHandler(BaseHandler):
                 with self.vfs.open(basename, "rb") as fp:
                     iszip = zipfile.is_zipfile(fp)
                 if iszip:
+                    # is_zipfile() only looks for the end record.  A file
+                    # that has one but no readable directory (its beginning
+                    # was lost, it is damaged) is not an archive to browse
+                    # but a file like any other, for the next handler.
+                    try:
+                        self.zipvfs = VFSZip(self.config, self.vfs, basename)
+                    except zipfile.BadZipFile:
+                        iszip = False
+                if iszip:
                     self.basename = basename
                     self.appendage = appendage
                     return True
@@ -427,7 +436,7 @@ class ZIPHandler(BaseHandler):
 
         if hasattr(self, "handler"):
             return
-        vfs = VFSZip(self.config, self.vfs, self.basename)
+        vfs = self.zipvfs
 
         self.handler = HandlerMultiplexer.getHandler(
             self.getselector(), self.searchrequest, self.protocol, self.config, vfs=vfs
